@@ -549,6 +549,9 @@ func runWorker(s *Spec, tier string, seed uint64, wi, wn int, plan Plan, ks []kn
 			fmt.Fprintf(os.Stderr, "NONDETERMINISM: run %d failed (%s) but its recorded tape does not fail on replay\n", run, res.fail.Class)
 			os.Exit(2)
 		}
+		if shr == nil {
+			shr = []uint64{}
+		}
 		rf := replayFile{Property: s.Property, Engine: s.Engine, Tier: tier, Seed: seed, Run: run, Class: fin.fail.Class, Key: fin.fail.Key,
 			Message: fin.fail.Msg, Tape: shr, OrigLen: len(res.rec), Shrinks: attempts, TraceHash: traceHash(fin.trace, fin.obs), Trace: fin.trace}
 		os.MkdirAll(replays, 0o755)
